@@ -1,1 +1,858 @@
-//! Expression-tree generator (filled in with C10 / C07).
+//! Harness-side expression trees (`E`), conversion to blots-core's AST, reference printers
+//! (fully parenthesised / minimally parenthesised under the reference table / random
+//! admissible layout with comments) and tape-driven generators.
+
+use crate::engine::pick_idx;
+use crate::model::F;
+use crate::model::mv::{RESERVED, is_ident};
+use crate::model::prec::{ALL_OPS, LEVEL_ATOM, LEVEL_POSTFIX_ACCESS, LEVEL_POSTFIX_FACT, LEVEL_PREFIX, Op};
+use blots_core::ast::{Commented, Expr, PostfixOp, RecordEntry, RecordKey, Spanned, SpannedExpr, UnaryOp};
+use blots_core::functions::BuiltInFunction;
+use blots_core::values::LambdaArg;
+use serde::{Deserialize, Serialize};
+
+#[derive(Clone, Debug, PartialEq, Serialize, Deserialize)]
+pub enum P {
+    Req(String),
+    Opt(String),
+    Rest(String),
+}
+
+impl P {
+    pub fn name(&self) -> &str {
+        match self {
+            P::Req(n) | P::Opt(n) | P::Rest(n) => n,
+        }
+    }
+    fn text(&self) -> String {
+        match self {
+            P::Req(n) => n.clone(),
+            P::Opt(n) => format!("{}?", n),
+            P::Rest(n) => format!("...{}", n),
+        }
+    }
+}
+
+#[derive(Clone, Debug, PartialEq, Serialize, Deserialize)]
+pub enum RE {
+    Pair(String, E),
+    Dyn(E, E),
+    Short(String),
+    Spread(E),
+}
+
+#[derive(Clone, Debug, PartialEq, Serialize, Deserialize)]
+pub enum E {
+    /// non-negative finite number literal
+    Num(F),
+    /// string literal; never contains both quote characters
+    Str(String),
+    Bool(bool),
+    Null,
+    Id(String),
+    InputRef(String),
+    BuiltIn(String),
+    List(Vec<E>),
+    Rec(Vec<RE>),
+    Lambda(Vec<P>, Box<E>),
+    If(Box<E>, Box<E>, Box<E>),
+    Do(Vec<E>, Box<E>),
+    Assign(String, Box<E>),
+    Call(Box<E>, Vec<E>),
+    Index(Box<E>, Box<E>),
+    Field(Box<E>, String),
+    Bin(Op, Box<E>, Box<E>),
+    Neg(Box<E>),
+    /// logical not; bool = word spelling (`not x`) instead of `!x`
+    Not(Box<E>, bool),
+    Fact(Box<E>),
+    /// only as list item / call argument
+    Spread(Box<E>),
+    /// top-level only: `output <assignment | identifier>`
+    Output(Box<E>),
+}
+
+pub fn id(s: &str) -> E {
+    E::Id(s.to_string())
+}
+pub fn n(x: f64) -> E {
+    E::Num(F(x))
+}
+pub fn bin(op: Op, a: E, b: E) -> E {
+    E::Bin(op, Box::new(a), Box::new(b))
+}
+pub fn call(f: E, args: Vec<E>) -> E {
+    E::Call(Box::new(f), args)
+}
+
+fn sp(e: Expr) -> SpannedExpr {
+    Spanned::dummy(e)
+}
+
+impl E {
+    pub fn depth(&self) -> usize {
+        1 + self.children().iter().map(|c| c.depth()).max().unwrap_or(0)
+    }
+
+    pub fn size(&self) -> usize {
+        1 + self.children().iter().map(|c| c.size()).sum::<usize>()
+    }
+
+    pub fn children(&self) -> Vec<&E> {
+        match self {
+            E::List(v) => v.iter().collect(),
+            E::Rec(v) => v
+                .iter()
+                .flat_map(|r| match r {
+                    RE::Pair(_, e) | RE::Spread(e) => vec![e],
+                    RE::Dyn(k, e) => vec![k, e],
+                    RE::Short(_) => vec![],
+                })
+                .collect(),
+            E::Lambda(_, b) => vec![b],
+            E::If(a, b, c) => vec![a, b, c],
+            E::Do(s, r) => s.iter().chain(std::iter::once(r.as_ref())).collect(),
+            E::Assign(_, v) => vec![v],
+            E::Call(f, a) => std::iter::once(f.as_ref()).chain(a.iter()).collect(),
+            E::Index(a, b) => vec![a, b],
+            E::Field(a, _) => vec![a],
+            E::Bin(_, a, b) => vec![a, b],
+            E::Neg(a) | E::Not(a, _) | E::Fact(a) | E::Spread(a) | E::Output(a) => vec![a],
+            _ => vec![],
+        }
+    }
+
+    pub fn kind(&self) -> &'static str {
+        match self {
+            E::Num(_) => "number",
+            E::Str(_) => "string",
+            E::Bool(_) => "bool",
+            E::Null => "null",
+            E::Id(_) => "identifier",
+            E::InputRef(_) => "input-ref",
+            E::BuiltIn(_) => "built-in",
+            E::List(_) => "list",
+            E::Rec(_) => "record",
+            E::Lambda(..) => "lambda",
+            E::If(..) => "conditional",
+            E::Do(..) => "do-block",
+            E::Assign(..) => "assignment",
+            E::Call(..) => "call",
+            E::Index(..) => "index",
+            E::Field(..) => "field",
+            E::Bin(..) => "binary",
+            E::Neg(_) => "negate",
+            E::Not(..) => "not",
+            E::Fact(_) => "factorial",
+            E::Spread(_) => "spread",
+            E::Output(_) => "output",
+        }
+    }
+
+    /// the blots-core AST this tree denotes (dummy spans; no comments)
+    pub fn to_core(&self) -> SpannedExpr {
+        let b = |e: &E| Box::new(e.to_core());
+        match self {
+            E::Num(F(x)) => sp(Expr::Number(*x)),
+            E::Str(s) => sp(Expr::String(s.clone())),
+            E::Bool(v) => sp(Expr::Bool(*v)),
+            E::Null => sp(Expr::Null),
+            E::Id(name) => match BuiltInFunction::from_ident(name) {
+                Some(bi) => sp(Expr::BuiltIn(bi)),
+                None => sp(Expr::Identifier(name.clone())),
+            },
+            E::InputRef(f) => sp(Expr::InputReference(f.clone())),
+            E::BuiltIn(name) => sp(Expr::BuiltIn(BuiltInFunction::from_ident(name).expect("built-in name"))),
+            E::List(items) => sp(Expr::List(items.iter().map(|i| Commented::new(i.to_core())).collect())),
+            E::Rec(entries) => sp(Expr::Record(
+                entries
+                    .iter()
+                    .map(|r| {
+                        Commented::new(match r {
+                            RE::Pair(k, v) => RecordEntry {
+                                key: RecordKey::Static(k.clone()),
+                                value: v.to_core(),
+                            },
+                            RE::Dyn(k, v) => RecordEntry {
+                                key: RecordKey::Dynamic(b(k)),
+                                value: v.to_core(),
+                            },
+                            RE::Short(k) => RecordEntry {
+                                key: RecordKey::Shorthand(k.clone()),
+                                value: Spanned::dummy(Expr::Null),
+                            },
+                            RE::Spread(e) => RecordEntry {
+                                key: RecordKey::Spread(Box::new(sp(Expr::Spread(b(e))))),
+                                value: Spanned::dummy(Expr::Null),
+                            },
+                        })
+                    })
+                    .collect(),
+            )),
+            E::Lambda(ps, body) => sp(Expr::Lambda {
+                args: ps
+                    .iter()
+                    .map(|p| match p {
+                        P::Req(n) => LambdaArg::Required(n.clone()),
+                        P::Opt(n) => LambdaArg::Optional(n.clone()),
+                        P::Rest(n) => LambdaArg::Rest(n.clone()),
+                    })
+                    .collect(),
+                body: b(body),
+            }),
+            E::If(c, t, e) => sp(Expr::Conditional {
+                condition: b(c),
+                then_expr: b(t),
+                else_expr: b(e),
+            }),
+            E::Do(stmts, ret) => sp(Expr::DoBlock {
+                statements: stmts.iter().map(|s| Commented::new(s.to_core())).collect(),
+                return_expr: Box::new(Commented::new(ret.to_core())),
+            }),
+            E::Assign(name, v) => sp(Expr::Assignment {
+                ident: name.clone(),
+                value: b(v),
+            }),
+            E::Call(f, args) => sp(Expr::Call {
+                func: b(f),
+                args: args.iter().map(|a| a.to_core()).collect(),
+            }),
+            E::Index(a, i) => sp(Expr::Access {
+                expr: b(a),
+                index: b(i),
+            }),
+            E::Field(a, f) => sp(Expr::DotAccess {
+                expr: b(a),
+                field: f.clone(),
+            }),
+            E::Bin(op, l, r) => sp(Expr::BinaryOp {
+                op: op.to_core(),
+                left: b(l),
+                right: b(r),
+            }),
+            E::Neg(a) => sp(Expr::UnaryOp {
+                op: UnaryOp::Negate,
+                expr: b(a),
+            }),
+            E::Not(a, _) => sp(Expr::UnaryOp {
+                op: UnaryOp::Not,
+                expr: b(a),
+            }),
+            E::Fact(a) => sp(Expr::PostfixOp {
+                op: PostfixOp::Factorial,
+                expr: b(a),
+            }),
+            E::Spread(a) => sp(Expr::Spread(b(a))),
+            E::Output(a) => sp(Expr::Output { expr: b(a) }),
+        }
+    }
+
+    /// binding level of the node under the reference table
+    fn level(&self) -> u8 {
+        match self {
+            E::Bin(op, ..) => op.level(),
+            E::Neg(_) | E::Not(..) => LEVEL_PREFIX,
+            E::Fact(_) => LEVEL_POSTFIX_FACT,
+            E::Call(..) | E::Index(..) | E::Field(..) => LEVEL_POSTFIX_ACCESS,
+            // these swallow everything to their right: never an unparenthesised operand
+            E::Lambda(..) | E::If(..) | E::Assign(..) | E::Output(_) | E::Spread(_) => 0,
+            _ => LEVEL_ATOM,
+        }
+    }
+}
+
+// -----------------------------------------------------------------------------------------
+// printing
+
+/// A tape of choices; exhausted tape = always the first (simplest) alternative.
+pub struct Tape<'a> {
+    pub data: &'a [u16],
+    pub pos: usize,
+}
+
+impl<'a> Tape<'a> {
+    pub fn new(data: &'a [u16]) -> Tape<'a> {
+        Tape { data, pos: 0 }
+    }
+    pub fn empty() -> Tape<'static> {
+        Tape { data: &[], pos: 0 }
+    }
+    pub fn raw(&mut self) -> u16 {
+        let v = self.data.get(self.pos).copied().unwrap_or(0);
+        self.pos += 1;
+        v
+    }
+    /// index in 0..n, monotone in the tape value (0 -> 0)
+    pub fn pick(&mut self, n: usize) -> usize {
+        if n <= 1 {
+            return 0;
+        }
+        pick_idx(self.raw(), n)
+    }
+    /// true with probability num/den; false on an exhausted tape
+    pub fn chance(&mut self, num: u32, den: u32) -> bool {
+        let v = self.raw() as u32;
+        v >= 65536 - (65536 * num / den).min(65535) && self.pos <= self.data.len()
+    }
+    pub fn exhausted(&self) -> bool {
+        self.pos >= self.data.len()
+    }
+}
+
+#[derive(Clone, Copy, PartialEq, Eq, Debug)]
+pub enum Mode {
+    /// every compound child in parentheses
+    Full,
+    /// parentheses only where the reference precedence table requires them
+    Minimal,
+}
+
+pub struct Printer<'a> {
+    pub mode: Mode,
+    /// layout choices (empty = canonical single-spaced layout)
+    pub tape: Tape<'a>,
+    /// admit comments at the positions C09 lists
+    pub comments: bool,
+    /// admit silently swallowed comments at continuation positions (C10 layout only)
+    pub continuation_comments: bool,
+    /// redundant parentheses and trailing commas
+    pub redundancy: bool,
+    /// comments inserted so far, in textual order (C09 positions only)
+    pub inserted: Vec<String>,
+    pub swallowed: usize,
+    pub layout_edits: usize,
+    pub position_kinds: std::collections::BTreeSet<&'static str>,
+    counter: usize,
+    indent: usize,
+}
+
+pub fn print_full(e: &E) -> String {
+    Printer::new(Mode::Full, Tape::empty()).expr(e, 0)
+}
+
+pub fn print_min(e: &E) -> String {
+    Printer::new(Mode::Minimal, Tape::empty()).expr(e, 0)
+}
+
+impl<'a> Printer<'a> {
+    pub fn new(mode: Mode, tape: Tape<'a>) -> Printer<'a> {
+        Printer {
+            mode,
+            tape,
+            comments: false,
+            continuation_comments: false,
+            redundancy: false,
+            inserted: vec![],
+            swallowed: 0,
+            layout_edits: 0,
+            position_kinds: Default::default(),
+            counter: 0,
+            indent: 0,
+        }
+    }
+
+    fn new_comment(&mut self, kind: &'static str) -> String {
+        self.counter += 1;
+        let bodies = ["c", "note", " spaced out ", "has \"quotes\" and 'more'", "// double", "x = 1", "ünï", "", "[1, 2]", "}"];
+        let b = bodies[self.tape.pick(bodies.len())];
+        let c = format!("//{}#{}", b, self.counter);
+        self.inserted.push(c.clone());
+        self.position_kinds.insert(kind);
+        c
+    }
+
+    fn nl(&self) -> String {
+        format!("\n{}", " ".repeat(self.indent))
+    }
+
+    /// a gap where the grammar admits spaces and line breaks (`min_one`: at least one
+    /// separator is required)
+    fn gap(&mut self, min_one: bool, allow_newline: bool) -> String {
+        let k = self.tape.pick(8);
+        let s = match k {
+            0 | 1 => {
+                if min_one {
+                    " ".to_string()
+                } else if k == 0 {
+                    " ".to_string()
+                } else {
+                    String::new()
+                }
+            }
+            2 => "  ".to_string(),
+            3 => " \t ".to_string(),
+            4 | 5 if allow_newline => self.nl(),
+            6 if allow_newline => format!("\r\n{}", " ".repeat(self.indent)),
+            7 if allow_newline && self.continuation_comments => {
+                self.swallowed += 1;
+                self.counter += 1;
+                format!(" // swallowed {}{}", self.counter, self.nl())
+            }
+            _ => " ".to_string(),
+        };
+        if k >= 2 {
+            self.layout_edits += 1;
+        }
+        s
+    }
+
+    fn wrap(&mut self, s: String) -> String {
+        let (a, b) = if self.tape.data.is_empty() { (String::new(), String::new()) } else { (self.gap(false, true), self.gap(false, true)) };
+        format!("({}{}{})", a, s, b)
+    }
+
+    /// print `child` as an operand of a parent that binds at `parent_level`; `strict` = the
+    /// child must bind strictly tighter (the non-associative side)
+    fn operand(&mut self, child: &E, parent_level: u8, strict: bool) -> String {
+        let s = self.expr(child, 0);
+        let need = match self.mode {
+            Mode::Full => child.level() < LEVEL_ATOM,
+            Mode::Minimal => {
+                let l = child.level();
+                if strict { l <= parent_level } else { l < parent_level }
+            }
+        };
+        // a leading '-' directly after a prefix '-' would still parse, but keep tokens apart
+        if need {
+            self.wrap(s)
+        } else if self.redundancy && self.tape.chance(1, 12) {
+            self.layout_edits += 1;
+            self.wrap(s)
+        } else {
+            s
+        }
+    }
+
+    /// free slot: list item, argument, right-hand side, condition, branch, body...
+    fn slot(&mut self, child: &E) -> String {
+        let s = self.expr(child, 0);
+        let must = matches!(child, E::Output(_));
+        let full = self.mode == Mode::Full && child.level() < LEVEL_ATOM && !matches!(child, E::Spread(_));
+        if must || full {
+            self.wrap(s)
+        } else if self.redundancy && !matches!(child, E::Spread(_)) && self.tape.chance(1, 12) {
+            self.layout_edits += 1;
+            self.wrap(s)
+        } else {
+            s
+        }
+    }
+
+    /// lambda bodies may not contain via / into / where at their top level
+    fn lambda_body(&mut self, body: &E) -> String {
+        let s = self.expr(body, 0);
+        let natural_top = matches!(body, E::Bin(op, ..) if matches!(op, Op::Via | Op::Into | Op::Where));
+        let full = self.mode == Mode::Full && body.level() < LEVEL_ATOM;
+        if natural_top || full { self.wrap(s) } else { s }
+    }
+
+    fn str_lit(s: &str) -> String {
+        if !s.contains('"') { format!("\"{}\"", s) } else { format!("'{}'", s) }
+    }
+
+    fn key(k: &str) -> String {
+        if is_ident(k) && !RESERVED.contains(&k) { k.to_string() } else { Self::str_lit(k) }
+    }
+
+    /// separators of a bracketed sequence with optional comments: returns the text between
+    /// the opening bracket and the closing bracket
+    fn sequence(&mut self, items: Vec<String>, allow_comments: bool, trailing_comma_needs_newline: bool) -> String {
+        if items.is_empty() {
+            return String::new();
+        }
+        let fancy = !self.tape.data.is_empty();
+        if !fancy {
+            return items.join(", ");
+        }
+        self.indent += 2;
+        let multiline = self.tape.chance(1, 2);
+        let mut out = String::new();
+        let n = items.len();
+        for (i, it) in items.into_iter().enumerate() {
+            // before the item: line break and standalone comment lines
+            if multiline {
+                out.push_str(&self.nl());
+                if allow_comments && self.comments && self.tape.chance(1, 5) {
+                    let k = 1 + self.tape.pick(2);
+                    for _ in 0..k {
+                        let c = self.new_comment("standalone-line-before-item");
+                        out.push_str(&c);
+                        out.push_str(&self.nl());
+                    }
+                }
+                self.layout_edits += 1;
+            } else if i > 0 {
+                out.push(' ');
+            }
+            out.push_str(&it);
+            let last = i + 1 == n;
+            // end-of-line comment directly after the item (before the comma)
+            let mut eol_before_comma = false;
+            if multiline && allow_comments && self.comments && self.tape.chance(1, 8) {
+                let c = self.new_comment("after-item-before-comma");
+                out.push(' ');
+                out.push_str(&c);
+                out.push_str(&self.nl());
+                eol_before_comma = true;
+            }
+            if !last {
+                out.push(',');
+                if multiline && allow_comments && self.comments && !eol_before_comma && self.tape.chance(1, 6) {
+                    let c = self.new_comment("after-comma-end-of-line");
+                    out.push_str("  ");
+                    out.push_str(&c);
+                }
+            } else if multiline && self.redundancy && self.tape.chance(1, 2) {
+                out.push(',');
+                self.layout_edits += 1;
+                if allow_comments && self.comments && !eol_before_comma && self.tape.chance(1, 6) {
+                    let c = self.new_comment("after-last-comma");
+                    out.push_str("  ");
+                    out.push_str(&c);
+                }
+                let _ = trailing_comma_needs_newline;
+            }
+        }
+        self.indent -= 2;
+        if multiline {
+            // comments before the closing bracket
+            if allow_comments && self.comments && self.tape.chance(1, 8) {
+                self.indent += 2;
+                let c = self.new_comment("before-closing-bracket");
+                out.push_str(&self.nl());
+                out.push_str(&c);
+                self.indent -= 2;
+            }
+            out.push_str(&self.nl());
+        }
+        out
+    }
+
+    pub fn expr(&mut self, e: &E, _ctx: u8) -> String {
+        match e {
+            E::Num(F(x)) => crate::model::mv::num_source(*x, false),
+            E::Str(s) => Self::str_lit(s),
+            E::Bool(b) => b.to_string(),
+            E::Null => "null".into(),
+            E::Id(n) | E::BuiltIn(n) => n.clone(),
+            E::InputRef(f) => format!("#{}", f),
+            E::List(items) => {
+                let parts: Vec<String> = items.iter().map(|i| self.slot(i)).collect();
+                if parts.is_empty() {
+                    return "[]".into();
+                }
+                format!("[{}]", self.sequence(parts, true, false))
+            }
+            E::Rec(entries) => {
+                let parts: Vec<String> = entries
+                    .iter()
+                    .map(|r| match r {
+                        RE::Pair(k, v) => format!("{}: {}", Self::key(k), self.slot(v)),
+                        RE::Dyn(k, v) => {
+                            let ks = self.slot(k);
+                            format!("[{}]: {}", ks, self.slot(v))
+                        }
+                        RE::Short(k) => k.clone(),
+                        RE::Spread(x) => {
+                            let s = self.operand(x, LEVEL_PREFIX, false);
+                            format!("...{}", s)
+                        }
+                    })
+                    .collect();
+                if parts.is_empty() {
+                    return "{}".into();
+                }
+                format!("{{{}}}", self.sequence(parts, true, false))
+            }
+            E::Lambda(ps, body) => {
+                let args = if ps.len() == 1 && self.tape.pick(2) == 0 {
+                    ps[0].text()
+                } else {
+                    format!("({})", ps.iter().map(|p| p.text()).collect::<Vec<_>>().join(", "))
+                };
+                let g = if self.tape.data.is_empty() { " ".to_string() } else { self.gap(false, true) };
+                self.indent += 2;
+                let b = self.lambda_body(body);
+                self.indent -= 2;
+                format!("{} =>{}{}", args, g, b)
+            }
+            E::If(c, t, el) => {
+                let fancy = !self.tape.data.is_empty();
+                let cs = self.slot(c);
+                let g1 = if fancy { self.gap(true, true) } else { " ".into() };
+                let g2 = if fancy { self.gap(true, true) } else { " ".into() };
+                let ts = self.slot(t);
+                let g3 = if fancy { self.gap(true, true) } else { " ".into() };
+                let g4 = if fancy { self.gap(true, true) } else { " ".into() };
+                let es = self.slot(el);
+                format!("if {}{}then{}{}{}else{}{}", cs, g1, g2, ts, g3, g4, es)
+            }
+            E::Do(stmts, ret) => {
+                self.indent += 2;
+                let mut out = String::from("do {");
+                for s in stmts {
+                    if self.comments && self.tape.chance(1, 6) {
+                        let c = self.new_comment("do-block-standalone-line");
+                        out.push_str(&self.nl());
+                        out.push_str(&c);
+                    }
+                    out.push_str(&self.nl());
+                    out.push_str(&self.statement(s));
+                    if self.comments && self.tape.chance(1, 6) {
+                        let c = self.new_comment("do-block-end-of-line");
+                        out.push_str("  ");
+                        out.push_str(&c);
+                    } else if !self.tape.data.is_empty() && self.tape.chance(1, 10) {
+                        // ';' separator instead of a line break
+                        out.push(';');
+                        self.layout_edits += 1;
+                    }
+                }
+                if self.comments && self.tape.chance(1, 6) {
+                    let c = self.new_comment("do-block-before-return");
+                    out.push_str(&self.nl());
+                    out.push_str(&c);
+                }
+                out.push_str(&self.nl());
+                out.push_str("return ");
+                out.push_str(&self.slot(ret));
+                self.indent -= 2;
+                out.push_str(&self.nl());
+                out.push('}');
+                out
+            }
+            E::Assign(name, v) => {
+                let rhs = self.slot(v);
+                let (a, b) = if self.tape.data.is_empty() { (" ".to_string(), " ".to_string()) } else { (self.gap(false, false), self.gap(false, false)) };
+                format!("{}{}={}{}", name, a, b, rhs)
+            }
+            E::Output(inner) => format!("output {}", self.expr(inner, 0)),
+            E::Call(f, args) => {
+                let fs = self.operand(f, LEVEL_POSTFIX_ACCESS, false);
+                let parts: Vec<String> = args.iter().map(|a| self.slot(a)).collect();
+                // call arguments: line breaks after '(' and ',' but no comment positions
+                let inner = if self.tape.data.is_empty() || parts.is_empty() {
+                    parts.join(", ")
+                } else {
+                    self.indent += 2;
+                    let ml = self.tape.chance(1, 3);
+                    let mut s = String::new();
+                    let n = parts.len();
+                    for (i, p) in parts.into_iter().enumerate() {
+                        if ml {
+                            s.push_str(&self.nl());
+                            self.layout_edits += 1;
+                        } else if i > 0 {
+                            s.push(' ');
+                        }
+                        s.push_str(&p);
+                        if i + 1 < n {
+                            s.push(',');
+                        } else if ml && self.redundancy && self.tape.chance(1, 2) {
+                            s.push(',');
+                            self.layout_edits += 1;
+                        }
+                    }
+                    self.indent -= 2;
+                    if ml {
+                        s.push_str(&self.nl());
+                    }
+                    s
+                };
+                format!("{}({})", fs, inner)
+            }
+            E::Index(a, i) => {
+                let base = self.operand(a, LEVEL_POSTFIX_ACCESS, false);
+                let idx = self.slot(i);
+                format!("{}[{}]", base, idx)
+            }
+            E::Field(a, f) => format!("{}.{}", self.operand(a, LEVEL_POSTFIX_ACCESS, false), f),
+            E::Bin(op, l, r) => {
+                let lv = op.level();
+                let ls = self.operand(l, lv, op.right_assoc());
+                let rs = self.operand(r, lv, !op.right_assoc());
+                let fancy = !self.tape.data.is_empty();
+                if op.is_word() {
+                    let before = if fancy { self.gap(true, true) } else { " ".into() };
+                    let after = if fancy { self.gap(true, false) } else { " ".into() };
+                    format!("{}{}{}{}{}", ls, before, op.text(), after, rs)
+                } else {
+                    // keep one space before operators starting with '!' or '.' (postfix '!' / field access)
+                    let mut before = if fancy { self.gap(false, true) } else { " ".into() };
+                    if before.is_empty() && (op.text().starts_with('!') || op.text().starts_with('.') || ls.ends_with(|c: char| c.is_ascii_digit())) {
+                        before = " ".into();
+                    }
+                    let mut after = if fancy { self.gap(false, true) } else { " ".into() };
+                    if after.is_empty() && (rs.starts_with('.') || rs.starts_with('-') || rs.starts_with('!') || rs.starts_with('=')) {
+                        after = " ".into();
+                    }
+                    format!("{}{}{}{}{}", ls, before, op.text(), after, rs)
+                }
+            }
+            E::Neg(a) => format!("-{}", self.operand(a, LEVEL_PREFIX, false)),
+            E::Not(a, word) => {
+                let s = self.operand(a, LEVEL_PREFIX, false);
+                if *word { format!("not {}", s) } else { format!("!{}", s) }
+            }
+            E::Fact(a) => {
+                let s = self.operand(a, LEVEL_POSTFIX_FACT, false);
+                format!("{}!", s)
+            }
+            E::Spread(a) => format!("...{}", self.operand(a, LEVEL_PREFIX, false)),
+        }
+    }
+
+    /// a statement (top level or inside a do-block): must not start with a token that the
+    /// previous line could absorb as an infix continuation
+    pub fn statement(&mut self, e: &E) -> String {
+        let s = self.expr(e, 0);
+        if s.starts_with('-') || s.starts_with('+') { format!("({})", s) } else { s }
+    }
+
+    /// whole program: statements with blank lines and comments at statement level
+    pub fn program(&mut self, stmts: &[E]) -> String {
+        let mut out = String::new();
+        for (i, st) in stmts.iter().enumerate() {
+            if i > 0 {
+                out.push('\n');
+                let blanks = if self.tape.data.is_empty() { 0 } else { self.tape.pick(6) };
+                for _ in 0..blanks {
+                    out.push('\n');
+                }
+            }
+            if self.comments && self.tape.chance(1, 5) {
+                let k = 1 + self.tape.pick(2);
+                for _ in 0..k {
+                    let c = self.new_comment("standalone-line-before-statement");
+                    out.push_str(&c);
+                    out.push('\n');
+                }
+            }
+            out.push_str(&self.statement(st));
+            if self.comments && self.tape.chance(1, 5) {
+                let c = self.new_comment("end-of-line-after-statement");
+                out.push_str("  ");
+                out.push_str(&c);
+            }
+        }
+        if self.comments && self.tape.chance(1, 6) {
+            let c = self.new_comment("standalone-line-after-last-statement");
+            out.push('\n');
+            out.push_str(&c);
+        }
+        out
+    }
+}
+
+// -----------------------------------------------------------------------------------------
+// generators (tape decoders)
+
+pub const NAMES: &[&str] = &["a", "b", "c", "x", "y", "foo", "bar_1", "_t", "total", "n"];
+pub const FIELD_NAMES: &[&str] = &["a", "b", "k", "name", "x1"];
+pub const KEY_POOL: &[&str] = &["a", "b", "k", "name", "x1", "two words", "if", "1", "", "é", "a-b", "it's", "say \"hi\""];
+pub const STR_POOL: &[&str] = &["", "a", "hello world", "it's", "say \"hi\"", "// not a comment", "a\\b", "line1\nline2", "é😀", "[1, 2]", "x => y", " "];
+pub const BUILTINS_FOR_SYNTAX: &[&str] = &["sum", "map", "len", "max", "to_string", "range", "sort_by", "format"];
+
+fn boxed(e: E) -> Box<E> {
+    Box::new(e)
+}
+
+/// purely syntactic expression: any node kind, names from a small pool (not meant to evaluate)
+pub fn syntactic(t: &mut Tape, depth: usize) -> E {
+    if depth == 0 || t.exhausted() {
+        return atom(t);
+    }
+    let d = depth - 1;
+    match t.pick(22) {
+        0 | 1 => atom(t),
+        2..=6 => {
+            let op = ALL_OPS[t.pick(ALL_OPS.len())];
+            E::Bin(op, boxed(syntactic(t, d)), boxed(syntactic(t, d)))
+        }
+        7 => E::Neg(boxed(syntactic(t, d))),
+        8 => {
+            let w = t.pick(2) == 1;
+            E::Not(boxed(syntactic(t, d)), w)
+        }
+        9 => E::Fact(boxed(syntactic(t, d))),
+        10 | 11 => {
+            let f = if t.pick(3) == 0 { syntactic(t, d) } else if t.pick(2) == 0 { E::Id(NAMES[t.pick(NAMES.len())].into()) } else { E::BuiltIn(BUILTINS_FOR_SYNTAX[t.pick(BUILTINS_FOR_SYNTAX.len())].into()) };
+            let k = t.pick(4);
+            let args = (0..k).map(|_| if t.chance(1, 10) { E::Spread(boxed(syntactic(t, d))) } else { syntactic(t, d) }).collect();
+            E::Call(boxed(f), args)
+        }
+        12 => E::Index(boxed(syntactic(t, d)), boxed(syntactic(t, d))),
+        13 => E::Field(boxed(syntactic(t, d)), FIELD_NAMES[t.pick(FIELD_NAMES.len())].into()),
+        14 | 15 => {
+            let k = t.pick(5);
+            E::List((0..k).map(|_| if t.chance(1, 10) { E::Spread(boxed(syntactic(t, d))) } else { syntactic(t, d) }).collect())
+        }
+        16 => {
+            let k = t.pick(4);
+            E::Rec(
+                (0..k)
+                    .map(|_| match t.pick(8) {
+                        0 => RE::Short(NAMES[t.pick(NAMES.len())].into()),
+                        1 => RE::Spread(syntactic(t, d)),
+                        2 => RE::Dyn(syntactic(t, d), syntactic(t, d)),
+                        _ => RE::Pair(KEY_POOL[t.pick(KEY_POOL.len())].into(), syntactic(t, d)),
+                    })
+                    .collect(),
+            )
+        }
+        17 | 18 => E::Lambda(params(t), boxed(syntactic(t, d))),
+        19 => E::If(boxed(syntactic(t, d)), boxed(syntactic(t, d)), boxed(syntactic(t, d))),
+        20 => {
+            let k = t.pick(3);
+            let stmts = (0..k)
+                .map(|_| if t.pick(2) == 0 { E::Assign(NAMES[t.pick(NAMES.len())].into(), boxed(syntactic(t, d))) } else { syntactic(t, d) })
+                .collect();
+            E::Do(stmts, boxed(syntactic(t, d)))
+        }
+        _ => E::Assign(NAMES[t.pick(NAMES.len())].into(), boxed(syntactic(t, d))),
+    }
+}
+
+pub fn params(t: &mut Tape) -> Vec<P> {
+    let names = ["x", "y", "z", "w"];
+    let shapes: &[&[u8]] = &[&[0], &[0, 0], &[], &[0, 1], &[1], &[0, 2], &[2], &[0, 1, 2], &[0, 0, 0]];
+    let sh = shapes[t.pick(shapes.len())];
+    sh.iter()
+        .enumerate()
+        .map(|(i, k)| match k {
+            0 => P::Req(names[i].into()),
+            1 => P::Opt(names[i].into()),
+            _ => P::Rest(names[i].into()),
+        })
+        .collect()
+}
+
+pub fn atom(t: &mut Tape) -> E {
+    match t.pick(12) {
+        0 | 1 | 2 => E::Id(NAMES[t.pick(NAMES.len())].into()),
+        3 | 4 => {
+            let nums = [1.0, 0.0, 2.0, 42.0, 0.5, 1e21, 1.5e-7, 123456.789, 1e15, 9007199254740993.0];
+            E::Num(F(nums[t.pick(nums.len())]))
+        }
+        5 => E::Str(STR_POOL[t.pick(STR_POOL.len())].into()),
+        6 => E::Bool(t.pick(2) == 0),
+        7 => E::Null,
+        8 => E::InputRef(FIELD_NAMES[t.pick(FIELD_NAMES.len())].into()),
+        9 => E::Id(["inf", "constants", "inputs"][t.pick(3)].into()),
+        10 => E::List(vec![]),
+        _ => E::Rec(vec![]),
+    }
+}
+
+/// statements for a syntactic program
+pub fn syntactic_program(t: &mut Tape, max_stmts: usize, depth: usize) -> Vec<E> {
+    let k = 1 + t.pick(max_stmts);
+    (0..k)
+        .map(|_| match t.pick(6) {
+            0 => E::Output(boxed(E::Assign(NAMES[t.pick(NAMES.len())].into(), boxed(syntactic(t, depth))))),
+            1 => E::Output(boxed(E::Id(NAMES[t.pick(NAMES.len())].into()))),
+            2 | 3 => E::Assign(NAMES[t.pick(NAMES.len())].into(), boxed(syntactic(t, depth))),
+            _ => syntactic(t, depth),
+        })
+        .collect()
+}
